@@ -62,6 +62,7 @@ counters!(
     fault_truncated,
     fault_chunk_deleted,
     fault_parsed_from_an_offset,
+    fault_statementwise_fold,
     probe_bom_program,
     probe_crlf_program,
     probe_cr_program,
@@ -818,6 +819,63 @@ fn execute_inner(case: &Case, stats: &mut Stats, non_extent: &mut Option<(usize,
                     ),
                 }),
             );
+        }
+    }
+    // ------------------------------------------ incremental use: one locator, statement by statement
+    // A caller may keep ONE linear locator alive and fold the top-level statements one at a time
+    // as it goes (non-decreasing offsets, so within the contract). The concatenated results must
+    // be what folding the whole module gives.
+    if let ast::Mod::Module(m) = &tree {
+        if m.body.len() > 1 {
+            stats.bump(C::fault_statementwise_fold as usize);
+            let per_stmt = guarded(|| {
+                let mut lin = LinearLocator::new(src);
+                let mut items: Vec<SourceRange> = Vec::new();
+                for stmt in m.body.iter().cloned() {
+                    let located = lin.fold(stmt).unwrap();
+                    let mut c = Collector::<SourceRange>::new();
+                    let _ = c.fold(located);
+                    items.extend(c.finish(false).0);
+                }
+                items
+            });
+            // with all-nodes-with-ranges the module node itself comes first in `lin_items`
+            let skip = lin_items.len().saturating_sub(per_stmt.as_ref().map_or(0, |v| v.len()));
+            match per_stmt {
+                Err(p) => {
+                    return done(
+                        dg,
+                        steps,
+                        Some(Violation {
+                            class: format!("panic:{}", panic_class(&p)),
+                            site: "StatementwiseFold".into(),
+                            step: 0,
+                            detail: format!("folding the statements one by one with one LinearLocator panicked: {p}"),
+                        }),
+                    );
+                }
+                Ok(items) => {
+                    for (i, it) in items.iter().enumerate() {
+                        if sr_tuple(it) != sr_tuple(&lin_items[i + skip]) {
+                            return done(
+                                dg,
+                                steps,
+                                Some(Violation {
+                                    class: "statementwise-mismatch".into(),
+                                    site: kind_label(&names, kinds[i + skip]),
+                                    step: i,
+                                    detail: format!(
+                                        "node #{}: folded statement by statement {:?}, folded as a module {:?}",
+                                        i + skip,
+                                        sr_tuple(it),
+                                        sr_tuple(&lin_items[i + skip])
+                                    ),
+                                }),
+                            );
+                        }
+                    }
+                }
+            }
         }
     }
     done(dg, steps, None)
